@@ -58,7 +58,7 @@ def toDegrees (s : Nat) : Nat :=
 
 /-- `ToSemicircles(degrees)` → int32 pattern -/
 def toSemicircles (d : Nat) : Nat :=
-  if d = float64Invalid || isNaN d || (match decode d with | .inf _ => true | _ => false) then sint32Invalid
+  if d = float64Invalid || isNaN d || isInf d then sint32Invalid
   else cvt .i32 (div d conversionFactor)
 
 end Fit.TimeAngle
